@@ -186,6 +186,11 @@ func (dm *DMap) syncPutOnCluster(e *env, nt storage.Entry) error {
 			err = cmd.Err()
 		}
 		if err != nil {
+			if !dm.s.isAlive() {
+				// This member is shutting down: its own connections are being closed. The
+				// entry must not be acknowledged with nothing but a copy that is about to vanish.
+				return ErrServerGone
+			}
 			// The backup is unreachable or it has rejected the entry. Whether the Put
 			// succeeds is decided by the write quorum below, not by a single backup.
 			err = protocol.ConvertError(err)
